@@ -329,6 +329,7 @@ template<class T, class U> struct E {
 __published:
   void a(T v = T(0)); void b(U u = U(7)); void c(T *p = static_cast<T *>(0)); void d(int n = (int)sizeof(T));
   int log(T first, ...);
+  void e(short w = short(0), unsigned long n = (unsigned long)(2));
 };
 template<class T> struct Vt : virtual NB { __published: T get(); };
 template<class T> struct Dt : NB { __published: T f(T x) const; };
@@ -337,7 +338,9 @@ typedef E<char, Item> Ec; typedef Vt<int> Vi; typedef Dt<int> Di; typedef Fin<in
 """
 DB_PROBE_PROTOS = {"a": "void E< char, Item >::a(char v = char(0));", "b": "void E< char, Item >::b(Item u = Item(7));",
                    "c": "void E< char, Item >::c(char *p = static_cast<char *>(0));",
-                   "d": "void E< char, Item >::d(int n = (int)(sizeof(char)));", "log": "int E< char, Item >::log(char first, ...);"}
+                   "d": "void E< char, Item >::d(int n = (int)(sizeof(char)));", "log": "int E< char, Item >::log(char first, ...);",
+                   # (a functional cast to a multi-word built-in type has to be written as a C-style cast)
+                   "e": "void E< char, Item >::e(short int w = (short int)(0), unsigned long int n = (unsigned long int)(2));"}
 
 
 def run_db_probe(ctx, work):
